@@ -991,3 +991,6 @@ def parts(tier):
         HypPart('lis', cases('LIS', mf), check, 800, 36000),
         HypPart('bit', cases('BIT', mf), check, 800, 36000),
     ]
+
+
+RULE += '  Added after the seeding rounds: LIS log passes without data records and NUL padded mnemonics; BIT requests without the padding of the source name (either reading accepted); RP66V1 input names with inner dots.'
